@@ -13,6 +13,7 @@ import (
 	"encoding/binary"
 	"encoding/json"
 	"fmt"
+	"io"
 	"time"
 
 	"github.com/blevesearch/mmap-go"
@@ -132,106 +133,84 @@ func ReadFooter(options *StoreOptions, file File) (*Footer, error) {
 
 // ScanFooter scans a file backwards from the given pos for a valid
 // Footer, adding ref-counts to fref on success.
+//
+// A candidate (a page that starts with the footer's magic bytes) that
+// turns out not to be a complete, consistent footer -- a torn or
+// partially written footer after a crash, or data that merely looks
+// like the start of a footer -- is skipped, and the scan continues
+// with the previous page.
 func ScanFooter(options *StoreOptions, fref *FileRef, fileName string,
 	pos int64) (*Footer, error) {
+	finfo, err := fref.file.Stat()
+	if err != nil {
+		return nil, err
+	}
+	fileSize := finfo.Size()
+
 	footerBeg := make([]byte, footerBegLen)
 
-	// Align pos to the start of a page (floor).
-	pos = pageAlignFloor(pos)
-
-	for {
-		for { // Scan for StoreMagicBeg, which may be a potential footer.
-			if pos <= 0 {
-				return nil, ErrNoValidFooter
-			}
-
-			n, err := fref.file.ReadAt(footerBeg, pos)
-			if err != nil {
-				return nil, err
-			}
-
-			if n == footerBegLen &&
-				bytes.Equal(StoreMagicBeg, footerBeg[:lenMagicBeg]) &&
-				bytes.Equal(StoreMagicBeg, footerBeg[lenMagicBeg:2*lenMagicBeg]) {
-				break
-			}
-
-			// Move pos back by page size.
-			pos -= int64(StorePageSize)
-		}
-
-		// Read and check the potential footer.
-		footerBegBuf := bytes.NewBuffer(footerBeg[2*lenMagicBeg:])
-
-		var version uint32
-		if err := binary.Read(footerBegBuf, StoreEndian, &version); err != nil {
+	for pos = pageAlignFloor(pos); pos > 0; pos -= int64(StorePageSize) {
+		// Look for StoreMagicBeg, which may be a potential footer.
+		n, err := fref.file.ReadAt(footerBeg, pos)
+		if err != nil && err != io.EOF {
 			return nil, err
 		}
+		if n != footerBegLen ||
+			!bytes.Equal(StoreMagicBeg, footerBeg[:lenMagicBeg]) ||
+			!bytes.Equal(StoreMagicBeg, footerBeg[lenMagicBeg:2*lenMagicBeg]) {
+			continue // Also when the file ends before a full footerBeg.
+		}
+
+		// Read and check the version and length.
+		version := StoreEndian.Uint32(footerBeg[2*lenMagicBeg:])
 		if version != StoreVersion {
-			return nil, fmt.Errorf("store: version mismatch, "+
-				"current: %v != found: %v", StoreVersion, version)
+			continue
 		}
 
-		var length uint32
-		if err := binary.Read(footerBegBuf, StoreEndian, &length); err != nil {
+		length := int64(StoreEndian.Uint32(footerBeg[2*lenMagicBeg+4:]))
+		if length < int64(footerBegLen+footerEndLen) ||
+			pos+length > fileSize {
+			continue // Not a footer or an incomplete one.
+		}
+
+		// Read the full footer data (JSON + the ending).
+		data := make([]byte, length-int64(footerBegLen))
+
+		n, err = fref.file.ReadAt(data, pos+int64(footerBegLen))
+		if err != nil && err != io.EOF {
 			return nil, err
 		}
+		if n != len(data) ||
+			!bytes.Equal(StoreMagicEnd, data[n-lenMagicEnd*2:n-lenMagicEnd]) ||
+			!bytes.Equal(StoreMagicEnd, data[n-lenMagicEnd:]) {
+			continue // Footer was incomplete, so keep scanning.
+		}
 
-		data := make([]byte, int64(length)-int64(footerBegLen))
+		content := int(length) - footerBegLen - footerEndLen
 
-		n, err := fref.file.ReadAt(data, pos+int64(footerBegLen))
+		// Check the offset and length that follow the JSON.
+		offset := int64(StoreEndian.Uint64(data[content:]))
+		length1 := int64(StoreEndian.Uint32(data[content+8:]))
+		if offset != pos || length1 != length {
+			continue
+		}
+
+		f := &Footer{refs: 1, fileName: fileName, filePos: offset}
+
+		err = json.Unmarshal(data[:content], f)
 		if err != nil {
-			return nil, err
+			continue // For example, a page of the footer was not written.
 		}
 
-		if n == len(data) &&
-			bytes.Equal(StoreMagicEnd, data[n-lenMagicEnd*2:n-lenMagicEnd]) &&
-			bytes.Equal(StoreMagicEnd, data[n-lenMagicEnd:]) {
-
-			content := int(length) - footerBegLen - footerEndLen
-			b := bytes.NewBuffer(data[content:])
-
-			var offset int64
-			if err = binary.Read(b, StoreEndian, &offset); err != nil {
-				return nil, err
-			}
-			if offset != pos {
-				return nil, fmt.Errorf("store: offset mismatch, "+
-					"wanted: %v != found: %v", offset, pos)
-			}
-
-			var length1 uint32
-			if err = binary.Read(b, StoreEndian, &length1); err != nil {
-				return nil, err
-			}
-			if length1 != length {
-				return nil, fmt.Errorf("store: length mismatch, "+
-					"wanted: %v != found: %v", length1, length)
-			}
-
-			f := &Footer{refs: 1, fileName: fileName, filePos: offset}
-
-			err = json.Unmarshal(data[:content], f)
-			if err != nil {
-				return nil, err
-			}
-
-			// json.Unmarshal would have just loaded the map.
-			// We now need to load each segment into the map.
-			// Also recursively load child footer segment stacks.
-			err = f.loadSegments(options, fref)
-			if err != nil {
-				return nil, err
-			}
-
-			return f, nil
+		err = f.loadSegments(options, fref)
+		if err != nil {
+			continue // For example, segment data beyond the end of file.
 		}
-		// Else, invalid footer - StoreMagicEnd missing and/or file
-		// pos out of bounds.
 
-		// Footer was invalid, so keep scanning.
-		pos -= int64(StorePageSize)
+		return f, nil
 	}
+
+	return nil, ErrNoValidFooter
 }
 
 // --------------------------------------------------------
